@@ -101,7 +101,9 @@ fn emit_x(sink: &mut CaseSink, p: &Problem, o: &Outcome, stats: &mut BTreeMap<St
     let input = json!({"problem": p.json(), "cov": cov, "resolve_after_update": updj, "outcome": o.json(), "status": o.status, "class": p.class, "label": p.label,
                        "n": p.n(), "m": p.m(), "size": size, "kinds": kinds,
                        "direct": {"lengths_ok": n_ok, "keep_agree": keep_agree, "normalised": norm_ok,
-                                   "iterations_agree": o.iterations == o.info_iterations, "status_agree": o.status == o.info_status}});
+                                   "iterations_agree": o.iterations == o.info_iterations,
+                                   "iterations_count_agree": o.kkt_iterations.map(|k| k == o.iterations).unwrap_or(true),
+                                   "update_results_agree": match upd { Some((b, us)) => expected_update_results(b, us) == o.update_results, None => true }, "status_agree": o.status == o.info_status}});
     sink.case("solve", input, case_coq(p, o), &tags);
 }
 
@@ -249,6 +251,14 @@ fn main() {
         let mut rng5 = Rng::new(seed ^ 0x7a75);
         for idx in 0..(if thorough { 280 } else { 56 }) {
             let (base, us) = gen_transition_case(&mut rng5, idx, max_size);
+            let fin = apply_updates(&base, &us);
+            let o = run_updates(&base, &us, 30.0);
+            emit_x(&mut sink, &fin, &o, &mut stats, Some((&base, &us)));
+        }
+        // refused updates (must leave the data untouched) and partial (index, value) updates
+        let mut rng6 = Rng::new(seed ^ 0x4ef5);
+        for idx in 0..(if thorough { 300 } else { 60 }) {
+            let (base, us) = if idx % 2 == 0 { gen_refused_case(&mut rng6, idx / 2, max_size) } else { gen_partial_case(&mut rng6, idx / 2, max_size) };
             let fin = apply_updates(&base, &us);
             let o = run_updates(&base, &us, 30.0);
             emit_x(&mut sink, &fin, &o, &mut stats, Some((&base, &us)));
